@@ -243,7 +243,7 @@ impl<F: Write + Seek> MiniAllocator<F> {
         debug_assert_ne!(start_mini_sector, consts::END_OF_CHAIN);
         let mut last_mini_sector = start_mini_sector;
         loop {
-            let next = self.minifat[last_mini_sector as usize];
+            let next = self.next_mini_sector(last_mini_sector)?;
             if next == consts::END_OF_CHAIN {
                 break;
             }
@@ -374,7 +374,7 @@ impl<F: Write + Seek> MiniAllocator<F> {
     ) -> io::Result<()> {
         let mut mini_sector = start_mini_sector;
         while mini_sector != consts::END_OF_CHAIN {
-            let next = self.minifat[mini_sector as usize];
+            let next = self.next_mini_sector(mini_sector)?;
             self.free_mini_sector(mini_sector)?;
             mini_sector = next;
         }
@@ -387,7 +387,7 @@ impl<F: Write + Seek> MiniAllocator<F> {
         &mut self,
         mini_sector: u32,
     ) -> io::Result<()> {
-        let next = self.minifat[mini_sector as usize];
+        let next = self.next_mini_sector(mini_sector)?;
         self.set_minifat(mini_sector, consts::END_OF_CHAIN)?;
         self.free_mini_chain(next)?;
         Ok(())
